@@ -6,6 +6,8 @@ package main
 //   enfEntry                     : the assignments generator.enterNextFinallyFrame makes when it enters a finally block
 //   enfRetakesPointer            : `tf = &vm.tryStack[len(vm.tryStack)-1]` follows the restoreStacks call (4bb92ea)
 //   step1ContinuesWhenNotHalted  : the returning loop of generator.step1 has `if !vm.halted() { continue }` (5eca78e)
+//   enfCloseErrorUsesHandleThrow : the restoreStacks-error branch of enterNextFinallyFrame is `handleThrow` + return (bf2a7fb)
+//   step1UnwindsBeforeReportingCloseError : step1 unwinds the activation right after the final restoreStacks (bf2a7fb)
 //   throwPrelude / returnPrelude / nextPrelude : the start/completed prelude of generatorObject.throw / _return / next:
 //                                  (state tested, action) pairs in order
 // Anything outside the shapes understood here is an error ("tie not regenerable").
@@ -126,6 +128,62 @@ func c09Enf(p *Pkg) ([][2]int, []string, bool, error) {
 	return out, txt, retake, nil
 }
 
+// the `if ex != nil { … }` block after restoreStacks in enterNextFinallyFrame dispatches with handleThrow and returns the
+// uncaught exception (bf2a7fb); vm.throw (which panics outside the run loop) is not called anywhere in the function
+func c09EnfCloseError(p *Pkg) (bool, error) {
+	fn := p.FuncDecl("generator", "enterNextFinallyFrame")
+	if fn == nil {
+		return false, fmt.Errorf("generator.enterNextFinallyFrame not found")
+	}
+	ok, usesThrow := false, false
+	ast.Inspect(fn.Body, func(n ast.Node) bool {
+		switch s := n.(type) {
+		case *ast.CallExpr:
+			if c09src(p, s.Fun) == "vm.throw" {
+				usesThrow = true
+			}
+		case *ast.IfStmt:
+			if c09src(p, s.Cond) == "ex != nil" && s.Init == nil && len(s.Body.List) == 2 {
+				inner, ok1 := s.Body.List[0].(*ast.IfStmt)
+				ret, ok2 := s.Body.List[1].(*ast.ReturnStmt)
+				if ok1 && ok2 && inner.Init != nil && c09src(p, inner.Init) == "ex = vm.handleThrow(ex)" &&
+					c09src(p, inner.Cond) == "ex != nil" && len(inner.Body.List) == 1 &&
+					c09src(p, inner.Body.List[0]) == "return false, ex" && c09src(p, ret) == "return true, nil" {
+					ok = true
+				}
+			}
+		}
+		return true
+	})
+	return ok && !usesThrow, nil
+}
+
+// in step1's returning branch, after `ex = vm.restoreStacks(g.iterStackLen, g.refStackLen)` the activation is unwound
+// (vm.sp, vm.callStack) before any return
+func c09Step1Unwind(p *Pkg) (bool, error) {
+	fn := p.FuncDecl("generator", "step1")
+	if fn == nil {
+		return false, fmt.Errorf("generator.step1 not found")
+	}
+	found := false
+	ast.Inspect(fn.Body, func(n ast.Node) bool {
+		blk, ok := n.(*ast.BlockStmt)
+		if !ok {
+			return true
+		}
+		for i, st := range blk.List {
+			if c09src(p, st) == "ex = vm.restoreStacks(g.iterStackLen, g.refStackLen)" && i+2 < len(blk.List) {
+				if c09src(p, blk.List[i+1]) == "vm.sp = vm.sb - 1" &&
+					c09src(p, blk.List[i+2]) == "vm.callStack = vm.callStack[:len(vm.callStack)-1]" {
+					found = true
+				}
+			}
+		}
+		return true
+	})
+	return found, nil
+}
+
 func c09Step1(p *Pkg) (bool, error) {
 	fn := p.FuncDecl("generator", "step1")
 	if fn == nil {
@@ -244,6 +302,16 @@ func genC09(p *Pkg) (map[string]string, error) {
 		return nil, err
 	}
 	fmt.Fprintf(&b, "def step1ContinuesWhenNotHalted : Bool := %v\n\n", cont)
+	ce, err := c09EnfCloseError(p)
+	if err != nil {
+		return nil, err
+	}
+	fmt.Fprintf(&b, "def enfCloseErrorUsesHandleThrow : Bool := %v\n\n", ce)
+	uw, err := c09Step1Unwind(p)
+	if err != nil {
+		return nil, err
+	}
+	fmt.Fprintf(&b, "def step1UnwindsBeforeReportingCloseError : Bool := %v\n\n", uw)
 	for _, f := range []struct{ fn, lean string }{{"throw", "throwPrelude"}, {"_return", "returnPrelude"}, {"next", "nextPrelude"}} {
 		xs, txt, err := c09Prelude(p, f.fn)
 		if err != nil {
